@@ -309,7 +309,7 @@ PROPS["C20"] = {
     },
 }
 
-ALL_DESIGNS = ["v1", "v2", "v3", "v4", "v5", "v6", "v7", "d1", "a1", "a2", "a3", "a4", "a5", "e1", "e2", "e3", "s1", "s2", "s3", "w1", "w2", "w3", "p1", "c1", "c2", "c3", "c4", "c5", "c6", "c7", "c8", "c9", "c10", "c11", "a6", "a7"]
+ALL_DESIGNS = ["v1", "v2", "v3", "v4", "v5", "v6", "v7", "d1", "a1", "a2", "a3", "a4", "a5", "e1", "e2", "e3", "s1", "s2", "s3", "w1", "w2", "w3", "p1", "c1", "c2", "c3", "c4", "c5", "c6", "c7", "c8", "c9", "c10", "c11", "c12", "d2", "a6", "a7"]
 
 PROPS["C01"] = {
     "level": "other",
@@ -341,7 +341,7 @@ PROPS["C09"] = {
         {"name": "expr", "pkg": "goa.design/goa/v3/expr", "pkgdir": "expr", "pkgname": "expr", "harness_dir": "exprpkg",
          "files": ["zz_verif_c09.go"], "quick": r"^VerifC09_", "thorough": r"^VerifC09T?_"},
     ],
-    "history_designs": ["d1", "a1", "w1"],
+    "history_designs": ["d1", "a1", "w1", "d2"],
     "bounds": {"kernels": ["codegen.AttributeTags (4 meta keys, 2 symbolic)", "openapi.TagsFromExpr (5 meta keys, 2 symbolic names)", "expr HostExpr/ServerExpr/APIExpr.Schemes (3 URIs from 5)", "expr MethodExpr.Finalize (4 service-level errors inherited, one optionally redefined)", "expr RouteExpr.Params (2-3 service base paths, 2 route wildcards)", "expr byFormat examples under an advancing clock (5 formats)", "codegen.File.Render SkipExist x exists (file system stubbed)"],
                "map_orders": "every iteration order of every map ranged over (symbolic permutation)",
                "by_product": "designs d1, a1, w1: gen;gen in one directory, 3 (quick) / 10 (thorough) further fresh processes, example;edit;example, gen after example - compared byte for byte (concrete)"},
